@@ -33,6 +33,14 @@ class Unsupported(Exception):
     """Outside the encodable class (unknown mnemonic, symbolic address...) -> query undecided/error."""
 
 
+class SymIndex(Unsupported):
+    """memory operand whose index register is symbolic: (constant part of the address, index value, scale)"""
+
+    def __init__(self, const, idx, scale, insn):
+        Unsupported.__init__(self, "symbolic index address in %r" % (insn,))
+        self.const, self.idx, self.scale = const, idx, scale
+
+
 class Op:
     __slots__ = ("kind", "reg", "width", "shift", "vidx", "size", "base", "index", "scale", "disp", "imm", "kmask", "zeroing", "bcst")
 
@@ -121,12 +129,18 @@ class Memory:
         self.img = img
         self.written = set()  # addresses written by the kernel (outside stack)
         self.log = None
+        # optional tolerance for over-reads that stay inside ONE naturally aligned <=8-byte word which overlaps a
+        # readable region (can never fault): recorded in self.soft, outside bytes come from outside_fn(addr)
+        self.soft = None
+        self.outside_fn = None
 
     def copy(self):
         m = Memory(self.img)
         m.b = dict(self.b)
         m.regions = self.regions
         m.written = set(self.written)
+        m.soft = list(self.soft) if self.soft is not None else None
+        m.outside_fn = self.outside_fn
         return m
 
     def add_region(self, reg, init):
@@ -157,6 +171,11 @@ class Memory:
             # constant pool of the image?
             if all((addr + i) in self.img.data for i in range(lo, hi)):
                 return [self.img.data[addr + i] if lo <= i < hi else 0 for i in range(n)]
+            if self.soft is not None and active is None and n <= 8 and addr % n == 0:
+                for r in self.regions:
+                    if r.r and r.kind == "data" and addr < r.base + r.size and r.base < addr + n:
+                        self.soft.append((addr, n, r.name, repr(insn)))
+                        return [self.b[addr + i] if r.base <= addr + i < r.base + r.size else self.outside_fn(addr + i) for i in range(n)]
             raise Violation("oob-read", "read of %d bytes at 0x%x outside every declared region" % (hi - lo, addr + lo), insn)
         if not reg.r:
             raise Violation("oob-read", "read of %d bytes at 0x%x in non-readable region %s" % (hi - lo, addr + lo, reg.name), insn)
@@ -272,7 +291,9 @@ class State:
             a += b
         if o.index:
             x = self.r[REGMAP[o.index][0]]
+            if REGMAP[o.index][1] == 32:
+                x = bv.extract(x, 31, 0)
             if not bv.is_c(x):
-                raise Unsupported("symbolic index address in %r" % (insn,))
+                raise SymIndex(a & bv.mask(64), x, o.scale, insn)
             a += x * o.scale
         return a & bv.mask(64)
